@@ -6,6 +6,10 @@ requests
   stats                           the statistics of the last `collect`
   count ty st                     count cell (0 when the group does not exist)
   cell ty st p total|min|max|mean value cell as hex16, `fill0` when there is no record (the frame shows 0)
+  hclear | hadd t <pop>           statistics history of a run: appends (t, collect pop)
+  run df|dict|json agents states props aggs     comma lists or `-`; `raises` or `ok n` (n result keys)
+  read ag st p|- agg|- t          a number of the last result (hex16; `fill0` = absent / filled 0)
+  point ag st p|- agg|- t         the same number read straight from the history (`pointCell`)
 replies of `stats`: groups `ty.st#count#name=total/min/max/mean&…` joined by `;` (model order; harness sorts)
 -/
 open Bptk.C13
@@ -54,31 +58,79 @@ def showP (x : Nat × PStat Float) : String :=
 def showG (x : (Nat × Nat) × Group Float) : String :=
   s!"{x.1.1}.{x.1.2}#{x.2.count}#" ++ "&".intercalate (x.2.props.map showP)
 
-def stepLine (s : Stats Float) (line : String) : Stats Float × String :=
+structure St where
+  stats : Stats Float := []
+  hist : History Float := []
+  out : Option (Out Float) := none
+
+def parseNats (s : String) : Option (List Nat) :=
+  if s == "-" then some [] else (s.splitOn ",").mapM (·.toNat?)
+
+def parseAgg (s : String) : Option Agg4 :=
+  if s == "total" then some .total else if s == "min" then some .min else if s == "max" then some .max
+  else if s == "mean" then some .mean else none
+
+def parseAggs (s : String) : Option (List Agg4) :=
+  if s == "-" then some [] else (s.splitOn ",").mapM parseAgg
+
+def parseFmt (s : String) : Option Fmt :=
+  if s == "df" then some .df else if s == "dict" then some .dict else if s == "json" then some .json else none
+
+def showNum : Num Float → String
+  | .cnt n => fb (Float.ofNat n)
+  | .val v => fb v
+  | .ratio n d => fb (n / Float.ofNat d)
+  | .zero => "fill0"
+  | .keyError => "keyerror"
+
+def parseCol (st p a : String) : Option Col := do
+  let st ← st.toNat?
+  if p == "-" && a == "-" then some ⟨st, none⟩
+  else some ⟨st, some ((← p.toNat?), (← parseAgg a))⟩
+
+def stepLine (σ : St) (line : String) : St × String :=
+  let s := σ.stats
   match line.trimAscii.toString.splitOn " " with
   | ["collect", p] => match parsePop p with
-    | some pop => (collect floatOps pop, "ok")
-    | none => (s, "bad-op")
-  | ["stats"] => (s, ";".intercalate (s.map showG))
+    | some pop => ({ σ with stats := collect floatOps pop }, "ok")
+    | none => (σ, "bad-op")
+  | ["stats"] => (σ, ";".intercalate (s.map showG))
   | ["count", t, st] => match t.toNat?, st.toNat? with
-    | some t, some st => (s, toString (countCell s t st))
-    | _, _ => (s, "bad-op")
+    | some t, some st => (σ, toString (countCell s t st))
+    | _, _ => (σ, "bad-op")
   | ["cell", t, st, p, w] => match t.toNat?, st.toNat?, p.toNat? with
     | some t, some st, some p =>
       let agg (a : Agg) := match aggCell s t st p a with | some v => fb v | none => "fill0"
-      if w == "total" then (s, agg .total) else if w == "min" then (s, agg .min)
-      else if w == "max" then (s, agg .max)
+      if w == "total" then (σ, agg .total) else if w == "min" then (σ, agg .min)
+      else if w == "max" then (σ, agg .max)
       else if w == "mean" then
-        (s, match meanCell s t st p with | some (n, d) => fb (n / Float.ofNat d) | none => "fill0")
-      else (s, "bad-op")
-    | _, _, _ => (s, "bad-op")
-  | _ => (s, "bad-op")
+        (σ, match meanCell s t st p with | some (n, d) => fb (n / Float.ofNat d) | none => "fill0")
+      else (σ, "bad-op")
+    | _, _, _ => (σ, "bad-op")
+  -- wave 2: the runner on a statistics history
+  | ["hclear"] => ({ σ with hist := [], out := none }, "ok")
+  | ["hadd", t, p] => match t.toNat?, parsePop p with
+    | some t, some pop => ({ σ with hist := σ.hist ++ [(t, collect floatOps pop)], out := none }, "ok")
+    | _, _ => (σ, "bad-op")
+  | ["run", f, ags, sts, ps, aggs] => match parseFmt f, parseNats ags, parseNats sts, parseNats ps, parseAggs aggs with
+    | some f, some ags, some sts, some ps, some aggs =>
+      match runOut f ⟨ags, sts, ps, aggs⟩ σ.hist with
+      | some out => ({ σ with out := some out }, s!"ok {out.length}")
+      | none => ({ σ with out := none }, "raises")
+    | _, _, _, _, _ => (σ, "bad-op")
+  | ["read", ag, st, p, a, t] => match σ.out, ag.toNat?, parseCol st p a, t.toNat? with
+    | some out, some ag, some c, some t => (σ, showNum (readOut out ag c t))
+    | _, _, _, _ => (σ, "bad-op")
+  | ["point", ag, st, p, a, t] => match ag.toNat?, parseCol st p a, t.toNat? with
+    | some ag, some c, some t => (σ, showNum (pointCell σ.hist ag c t))
+    | _, _, _ => (σ, "bad-op")
+  | _ => (σ, "bad-op")
 
-partial def loop (h : IO.FS.Stream) (s : Stats Float) : IO Unit := do
+partial def loop (h : IO.FS.Stream) (s : St) : IO Unit := do
   let line ← h.getLine
   if line.isEmpty then return ()
   let (s', out) := stepLine s line
   IO.println out
   loop h s'
 
-def main : IO Unit := do loop (← IO.getStdin) []
+def main : IO Unit := do loop (← IO.getStdin) {}
